@@ -208,7 +208,10 @@ class HydrodynamicsTemplateModel:
 
         """
         # Add 1e-100 to avoid having something like 0/0
-        sign = np.sign((1-3*self.alN)*self.mu-self.nu)*np.sign((1-3*al)*self.mu-self.nu)
+        # np.sign(0) = 0 would cancel the regulators below (e.g. al = 0 when mu = nu)
+        sign = np.where(
+            ((1-3*self.alN)*self.mu-self.nu)*((1-3*al)*self.mu-self.nu) < 0, -1.0, 1.0
+        )
         return sign*(abs((1 - 3 * self.alN) * self.mu - self.nu) + 1e-100) / (
             abs((1 - 3 * al) * self.mu - self.nu) + 1e-100
         )
